@@ -558,6 +558,14 @@ func (w *World) Exec(op string) error {
 			w.viol("C17", "wallet-does-not-load", "%s: %v", op, err)
 			return fmt.Errorf("reload: %v", err)
 		}
+	case "restorews":
+		// the user types the backup words with a doubled blank and a trailing blank (bip39 accepts that spelling); from
+		// now on this spelling IS the wallet's mnemonic as far as the harness' derivations are concerned
+		ww.Mnemonic = strings.Replace(strings.TrimSpace(ww.Mnemonic), " ", "  ", 1) + " "
+		if err := w.RestoreWallet(ww); err != nil {
+			w.viol("C19", "restore-failed", "%s: %v", op, err)
+			return nil
+		}
 	case "restore":
 		if err := w.RestoreWallet(ww); err != nil {
 			w.viol("C19", "restore-failed", "%s: %v", op, err)
